@@ -503,3 +503,6 @@ mod if_std {
 
 #[cfg(feature = "std")]
 pub use self::if_std::*;
+
+#[cfg(futures_intrusive_verif)]
+include!(concat!(env!("FI_VERIF_INC"), "/mutex.rs"));
